@@ -1,7 +1,4 @@
 """C13 — a table's reported format string reproduces the table (ak/ppobj.py: to_fmt_str, format parser, setter)."""
-import copy
-import random
-
 from harness.core import enc_str, dec_str
 from harness import c12
 
@@ -31,6 +28,8 @@ class _Live:
         from ak.ppobj import PPTable
         op, *args = line.split()
         try:
+            if op == "parse":
+                return "ok " + _show_parsed(dec_str(args[0]))
             if op == "new":
                 self.table, self.last = None, None
                 self.records, self.kw = c12.decode(args)
@@ -62,6 +61,49 @@ class _Live:
             return "bad-op"
         except Exception as e:
             return "err " + type(e).__name__
+
+
+def _show_parsed(fmt):
+    """canonical text of `_PPTableParsedFmt(fmt)` (internal state: a diagnostic line)"""
+    from ak.ppobj import _PPTableParsedFmt
+    p = _PPTableParsedFmt(fmt)
+    cols = p.cols_parsed_fmt.columns
+
+    def opt(x):
+        return "none" if x is None else "some:" + enc_str(x)
+    if cols == "":
+        c = "keep"
+    elif cols == "*":
+        c = "all"
+    else:
+        c = "cols " + " ".join("(%s %s %d %s %s %s)" % (enc_str(x.field_name), opt(x.fmt_modifier), 1 if x.break_by else 0,
+                                                        opt(x.value_path), x.min_w, x.max_w) for x in cols)
+    v = "None" if p.vis_lines is None else "%s:%s" % p.vis_lines
+    return c + " ; " + v
+
+
+def observable(i, line):
+    # `parse` shows the parser's internal record: a diagnostic
+    return not line.startswith("parse ")
+
+
+_FMT_CHARS = "ab :,;!/<-()*0123456789_+\t\xa0"
+
+
+def gen_parse_lines(rng, n):
+    for _ in range(n):
+        k = rng.random()
+        if k < 0.5:
+            s = "".join(rng.choice(_FMT_CHARS) for _ in range(rng.randint(0, 14)))
+        else:
+            cols = [{"f": rng.choice(["a", "b c", "x"]), "mod": rng.choice([None, None, "val", "m/n"]),
+                     "brk": rng.random() < 0.3, "w": rng.choice([None, "hidden", [2, 2], [0, 7], [3, 12]])}
+                    for _ in range(rng.randint(1, 3))]
+            s = c12.fmt_str(rng, cols, rng.choice([None, "*", [rng.randint(0, 30), rng.randint(0, 30)]]))
+            if k < 0.75:       # one edit
+                i = rng.randrange(len(s) + 1)
+                s = s[:i] + rng.choice(_FMT_CHARS) + s[i + rng.randint(0, 1):]
+        yield s
 
 
 def _ctor_kw(records, kw, fmt):
@@ -218,6 +260,8 @@ def gen_cases(rng, tier):
     for _ in range(200 if quick else 5000):
         desc = c12.gen_malformed(rng)
         yield _case(desc, gen_history(rng, desc), "malformed")
+    for s in gen_parse_lines(rng, 1500 if quick else 60000):
+        yield {"lines": ["parse " + enc_str(s)], "meta": {"kind": "parse"}}
     if not quick:
         yield from search_cases(rng, tier)
 
@@ -256,6 +300,8 @@ def shrink(case):
 
 
 def nontrivial(case, replies):
+    if case["lines"][0].startswith("parse "):
+        return True
     return len(replies) > 1 and any(r.startswith("ok ") for r in replies[1:])
 
 
@@ -280,7 +326,8 @@ def tags(case, replies):
 
 RULE = ("histories over C12's tables (field names the serialised form can express): new, then 2-8 of str / print / "
         "str+setlast / str+ctorlast / set ''|';'|';;' / set <another well-formed format> / set <malformed>, always "
-        "ending with str, print, str, setlast|ctorlast, print, str. non-trivial = at least one later step answered "
+        "ending with str, print, str, setlast|ctorlast, print, str; plus `parse <fmt>` lines (fuzzed and edited format "
+        "strings; the parser's internal record is compared as a diagnostic). non-trivial = at least one later step answered "
         "with data; distinct by protocol text")
 TRUSTED = list(c12.TRUSTED)
 ASSUMPTIONS = list(c12.ASSUMPTIONS) + [
